@@ -224,6 +224,7 @@ def dump(repo: str) -> dict:
 
     out["answers"] = [a for a in (_answer(k) for k in out["request_kinds"]) if a is not None]
     out["set_routes"] = _set_routes(parameter, ecomax_parameters, mixer_parameters, thermostat_parameters, schedules, dev_ecomax)
+    out["pipeline"] = _pipeline()
     return out
 
 
@@ -483,6 +484,7 @@ def emit_lean(d: dict) -> dict[str, str]:
     )
     body += "end PlumVerif.Gen\n"
     files["Requests.lean"] = body
+    files["Pipeline.lean"] = _emit_pipeline(d["pipeline"], hdr)
     return files
 
 
@@ -537,6 +539,180 @@ def emit_scaling(d: dict, hdr: str) -> str:
         )
         + "\n\n"
     )
+    body += "end PlumVerif.Gen\n"
+    return body
+
+
+def _pipeline() -> dict:
+    """Facts of the receive pipeline and of device set-up read from the SOURCE (ast of the imported modules' text):
+    the except clauses of frame_producer / frame_consumer in order, what they do, where task_done sits; the real
+    subclass relation between exception families and the classes those clauses name; the set-up request loop, the
+    gate of EcoMAX.async_setup, the table the device really uses, and which event handlers wait for product
+    information (Props/C09Contain, Props/C16 pin each of them to the statement by `decide`)."""
+    import ast
+    import asyncio
+    import struct
+    import textwrap
+    from pyplumio import exceptions as exc_mod
+    from pyplumio import protocol as proto_mod
+    from pyplumio.devices import PhysicalDevice
+    from pyplumio.devices import ecomax as ecomax_mod
+    from pyplumio.devices import mixer as mixer_mod
+    from pyplumio.devices import thermostat as thermostat_mod
+
+    def fn_ast(fn):
+        return ast.parse(textwrap.dedent(inspect.getsource(fn))).body[0]
+
+    def first(node, kind):
+        return next(n for n in ast.walk(node) if isinstance(n, kind))
+
+    def handlers_of(try_node):
+        rows = []
+        for h in try_node.handlers:
+            names = ([ast.unparse(e) for e in h.type.elts] if isinstance(h.type, ast.Tuple)
+                     else [ast.unparse(h.type)] if h.type is not None else ["BaseException"])
+            leaves = any(isinstance(n, (ast.Break, ast.Return, ast.Raise)) for n in ast.walk(h))
+            rows.append([names, "break" if leaves else "continue"])
+        return rows
+
+    def calls_in(nodes):
+        out = []
+        for st in nodes:
+            for n in ast.walk(st):
+                if isinstance(n, ast.Call):
+                    out.append(n.func.attr if isinstance(n.func, ast.Attribute) else ast.unparse(n.func))
+        return out
+
+    prod = fn_ast(proto_mod.AsyncProtocol.frame_producer)
+    ploop = first(prod, ast.While)
+    ptry = next(n for n in ploop.body if isinstance(n, ast.Try))
+    cons = fn_ast(proto_mod.AsyncProtocol.frame_consumer)
+    cloop = first(cons, ast.While)
+    ctry = next(n for n in cloop.body if isinstance(n, ast.Try))
+    out = {
+        "producer_handlers": handlers_of(ptry),
+        "producer_try_calls": calls_in(ptry.body),
+        "consumer_handlers": handlers_of(ctry),
+        "consumer_try_calls": calls_in(ctry.body),
+        "consumer_finally_calls": calls_in(ctry.finalbody),
+        "consumer_get_outside_try": "get" in calls_in([n for n in cloop.body if not isinstance(n, ast.Try)]),
+    }
+    # the subclass relation, asked of the interpreter: exception FAMILIES (every representative must agree) x the class
+    # expressions the clauses name, evaluated in protocol.py's own namespace
+    protocol_family = [exc_mod.ProtocolError] + [c for c in vars(exc_mod).values()
+                                                 if isinstance(c, type) and issubclass(c, exc_mod.ProtocolError)]
+    families = {
+        "ProtocolError": protocol_family,
+        "OSError": [OSError, ConnectionResetError, ConnectionError, BrokenPipeError, FileNotFoundError, PermissionError],
+        "TimeoutError": [asyncio.TimeoutError, TimeoutError],
+        "other": [ValueError, KeyError, IndexError, LookupError, TypeError, AttributeError, struct.error, UnicodeDecodeError,
+                  UnicodeEncodeError, ZeroDivisionError, OverflowError, ArithmeticError, AssertionError, RuntimeError,
+                  NotImplementedError, RecursionError, StopIteration, StopAsyncIteration, EOFError, BufferError, NameError,
+                  ImportError, ModuleNotFoundError, MemoryError, ReferenceError, SystemError, Exception,
+                  exc_mod.PyPlumIOError, exc_mod.ConnectionFailedError, asyncio.InvalidStateError, asyncio.QueueFull, asyncio.QueueEmpty],
+        "CancelledError": [asyncio.CancelledError],
+    }
+    names = sorted({n for rows in (out["producer_handlers"], out["consumer_handlers"]) for ns, _ in rows for n in ns})
+    isa = []
+    for fam, reps in families.items():
+        for n in names:
+            target = eval(n, vars(proto_mod))  # noqa: S307  a class expression taken from an except clause of protocol.py
+            verdicts = {issubclass(r, target) for r in reps}
+            isa.append([fam, n, 1 if verdicts == {True} else 0 if verdicts == {False} else 2])
+    out["exc_isa"] = isa
+    out["exc_families"] = {k: [c.__module__ + "." + c.__qualname__ for c in v] for k, v in families.items()}
+    # ---- device set-up
+    req = fn_ast(PhysicalDevice.request)
+    rloop = first(req, ast.While)
+    rtry = next(n for n in rloop.body if isinstance(n, ast.Try))
+    out["request_loop_cond"] = ast.unparse(rloop.test)
+
+    def loop_runs(r):
+        try:
+            return int(bool(eval(ast.unparse(rloop.test), {"retries": r})))  # noqa: S307  the loop test of request()
+        except Exception:  # noqa: BLE001
+            return 2
+    out["request_loop_test"] = [[r, loop_runs(r)] for r in (0, 1, 2, 3)]
+    out["request_retry_on"] = [n for ns, _ in handlers_of(rtry) for n in ns]
+    out["request_try_calls"] = calls_in(rtry.body)
+    after = [n for n in req.body if isinstance(n, ast.Raise)]
+    out["request_raises"] = ast.unparse(after[0].exc.func) if after else "-"
+    out["request_raise_args"] = len(after[0].exc.args) if after else 0
+    setup = fn_ast(PhysicalDevice.async_setup)
+    gather = next(n for n in ast.walk(setup) if isinstance(n, ast.Call) and ast.unparse(n.func) == "asyncio.gather")
+    out["setup_return_exceptions"] = any(k.arg == "return_exceptions" and ast.unparse(k.value) == "True" for k in gather.keywords)
+    errs = next((n for n in ast.walk(setup) if isinstance(n, ast.ListComp)), None)
+    out["setup_errors_expr"] = ast.unparse(errs) if errs is not None else "-"
+    idx = [n.slice.value for n in ast.walk(errs.elt) if isinstance(n, ast.Subscript) and isinstance(n.slice, ast.Constant)
+           and isinstance(n.value, ast.Attribute) and n.value.attr == "args"] if errs is not None else []
+    out["setup_errors_arg_index"] = idx[0] if len(idx) == 1 and isinstance(idx[0], int) and idx[0] >= 0 else 99
+    esetup = fn_ast(ecomax_mod.EcoMAX.async_setup)
+    gate = []
+    for n in ast.walk(esetup):
+        if isinstance(n, ast.Await) and isinstance(n.value, ast.Call) and isinstance(n.value.func, ast.Attribute) \
+                and n.value.func.attr in ("wait_for", "get") and n.value.args:
+            gate.append(str(eval(ast.unparse(n.value.args[0]), vars(ecomax_mod))))  # noqa: S307
+    out["setup_gate"] = gate
+    out["setup_frames_of_device"] = [[int(d.frame_type), d.provides] for d in ecomax_mod.EcoMAX._setup_frames]
+    # which event handlers wait for product information: `self.subscribe(<name>, [filter(]self.<method>[)])` in __init__,
+    # and an `await <receiver>.get(ATTR_PRODUCT …)` / wait_for in the method
+    rows = []
+    for mod, cls in ((ecomax_mod, ecomax_mod.EcoMAX), (mixer_mod, mixer_mod.Mixer), (thermostat_mod, thermostat_mod.Thermostat)):
+        init = fn_ast(cls.__init__)
+        for n in ast.walk(init):
+            if isinstance(n, ast.Call) and isinstance(n.func, ast.Attribute) and n.func.attr in ("subscribe", "subscribe_once") and len(n.args) == 2:
+                event = str(eval(ast.unparse(n.args[0]), vars(mod)))  # noqa: S307
+                meth = next((a.attr for a in ast.walk(n.args[1]) if isinstance(a, ast.Attribute) and isinstance(a.value, ast.Name) and a.value.id == "self"), None)
+                if meth is None or not hasattr(cls, meth):
+                    rows.append([cls.__name__, event, ast.unparse(n.args[1]), 2])
+                    continue
+                body = fn_ast(getattr(cls, meth))
+                waits = any(
+                    isinstance(a, ast.Await) and isinstance(a.value, ast.Call) and isinstance(a.value.func, ast.Attribute)
+                    and a.value.func.attr in ("get", "wait_for") and a.value.args
+                    and str(eval(ast.unparse(a.value.args[0]), vars(mod))) == "product"  # noqa: S307
+                    for a in ast.walk(body))
+                rows.append([cls.__name__, event, meth, int(waits)])
+    out["handler_waits_product"] = rows
+    return out
+
+
+def _emit_pipeline(p: dict, hdr: str) -> str:
+    def strs(xs):
+        return "[" + ", ".join(lean_str(x) for x in xs) + "]"
+
+    def hrows(rows):
+        return lean_list([f"({strs(ns)}, {lean_str(act)})" for ns, act in rows], 1)
+
+    body = hdr + "namespace PlumVerif.Gen\n\n"
+    body += "/-- protocol.py `frame_producer`: the except clauses of the loop's try, in order: (classes named, break | continue) -/\n"
+    body += "def producerHandlers : List (List String × String) := " + hrows(p["producer_handlers"]) + "\n"
+    body += "def producerTryCalls : List String := " + strs(p["producer_try_calls"]) + "\n\n"
+    body += "/-- protocol.py `frame_consumer`: except clauses, the calls inside the try body and inside `finally` -/\n"
+    body += "def consumerHandlers : List (List String × String) := " + hrows(p["consumer_handlers"]) + "\n"
+    body += "def consumerTryCalls : List String := " + strs(p["consumer_try_calls"]) + "\n"
+    body += "def consumerFinallyCalls : List String := " + strs(p["consumer_finally_calls"]) + "\n\n"
+    body += ("/-- issubclass(<every representative of the family>, <class named by a clause>) as the interpreter answers:\n"
+             "    1 yes, 0 no, 2 the representatives disagree -/\n")
+    body += "def excIsA : List (String × String × Nat) := " + lean_list(
+        [f"({lean_str(f)}, {lean_str(n)}, {v})" for f, n, v in p["exc_isa"]], 3) + "\n\n"
+    body += "/- devices/__init__.py `PhysicalDevice.request` / `async_setup`, devices/ecomax.py `EcoMAX.async_setup` -/\n"
+    body += f"/-- the loop test of `request` is `{p['request_loop_cond']}`: (retries, 1 = the loop body runs / 0 = it does not) -/\n"
+    body += "def requestLoopTest : List (Nat × Nat) := [" + ", ".join(f"({a}, {b})" for a, b in p["request_loop_test"]) + "]\n"
+    body += "def requestRetryOn : List String := " + strs(p["request_retry_on"]) + "\n"
+    body += "def requestTryCalls : List String := " + strs(p["request_try_calls"]) + "\n"
+    body += f"def requestRaises : String := {lean_str(p['request_raises'])}\n"
+    body += f"def requestRaiseArgs : Nat := {p['request_raise_args']}\n"
+    body += f"def setupReturnExceptions : Bool := {'true' if p['setup_return_exceptions'] else 'false'}\n"
+    body += f"/-- the error list is `{p['setup_errors_expr']}`: position in the exception's arguments -/\n"
+    body += f"def setupErrorsArgIndex : Nat := {p['setup_errors_arg_index']}\n"
+    body += "def setupGate : List String := " + strs(p["setup_gate"]) + "\n"
+    body += "def setupFramesOfDevice : List (Nat × String) := " + lean_list(
+        [f"({a}, {lean_str(b)})" for a, b in p["setup_frames_of_device"]], 3) + "\n\n"
+    body += ("/-- (class, event name, handler subscribed in __init__, 1 = the handler awaits product information / 0 = it does not /\n"
+             "    2 = not a method of the class) -/\n")
+    body += "def handlerWaitsProduct : List (String × String × String × Nat) := " + lean_list(
+        [f"({lean_str(c)}, {lean_str(e)}, {lean_str(m)}, {w})" for c, e, m, w in p["handler_waits_product"]], 2) + "\n\n"
     body += "end PlumVerif.Gen\n"
     return body
 
